@@ -240,8 +240,11 @@ def jMat (M : Matrix) : Json := jList (jList jNat) M
 def opMatrices (j : Json) : R Json := do
   let s ← connSettings (← field j "s")
   let e ← existence (← field j "e")
-  let spec := enumSpec s e
+  -- `lib_only`: for large settings the brute-force specification (exponential in the number of cells) is
+  -- replaced by the algorithmic enumeration, proved equal to it (`C09.enumLib_eq_enumSpec`)
+  let libOnly ← fieldD j "lib_only" bool false
   let lib := enumLib s e
+  let spec := if libOnly then lib else enumSpec s e
   let test ← fieldD j "validate" (listOf (listOf (listOf nat))) []
   return Json.mkObj [("max", jMat (maxMat s e)), ("par", jNat (parLimit s e)),
     ("spec", jList jMat spec), ("lib", jList jMat lib), ("count", jNat (countAll s e)),
